@@ -221,32 +221,29 @@ func matchKnown(ks []KnownFinding, prop string, f *Finding) *KnownFinding {
 
 var reachRe = regexp.MustCompile(`verifReach\("([^"]+)"`)
 
-// expectedReach scans harness sources of a property for verifReach labels (vacuity witnesses).
-func expectedReach(prop string, tier int) map[string][]string {
-	out := map[string][]string{}
+// expectedReach scans the harness sources that define harnesses of a property for verifReach
+// labels (vacuity witnesses). Labels are checked against the union over the property's harnesses.
+func expectedReach(prop string) []string {
+	seen := map[string]bool{}
+	var out []string
 	filepath.Walk(filepath.Join(verifDir, "harness"), func(p string, info os.FileInfo, err error) error {
 		if err != nil || info.IsDir() || !strings.HasSuffix(p, ".go") {
 			return nil
 		}
 		data, _ := os.ReadFile(p)
-		// split by function so labels are attributed to harnesses
 		src := string(data)
-		idx := regexp.MustCompile(`(?m)^func (VH_[A-Za-z0-9_]+)\(`).FindAllStringSubmatchIndex(src, -1)
-		for i, m := range idx {
-			name := src[m[2]:m[3]]
-			end := len(src)
-			if i+1 < len(idx) {
-				end = idx[i+1][0]
-			}
-			if !strings.HasPrefix(name, "VH_"+prop+"_") {
-				continue
-			}
-			for _, r := range reachRe.FindAllStringSubmatch(src[m[0]:end], -1) {
-				out[name] = append(out[name], r[1])
+		if !strings.Contains(src, "func VH_"+prop+"_") {
+			return nil
+		}
+		for _, r := range reachRe.FindAllStringSubmatch(src, -1) {
+			if strings.HasPrefix(r[1], prop+".") && !seen[r[1]] {
+				seen[r[1]] = true
+				out = append(out, r[1])
 			}
 		}
 		return nil
 	})
+	sort.Strings(out)
 	return out
 }
 
@@ -292,18 +289,15 @@ func cmdCheck(args []string) int {
 		return 0
 	}
 	known := loadKnown()
-	expReach := expectedReach(prop, curTier)
+	expReach := expectedReach(prop)
+	reachedAll := map[string]bool{}
 	exit := 0
 	for _, h := range names {
 		hr := explore(prog, cfg, h)
 		printHarnessResult(hr)
 		ev.addHarness(hr)
-		for _, lbl := range expReach[h] {
-			if !hr.Reached[lbl] {
-				msg := fmt.Sprintf("vacuity: reach label %q of %s not satisfiable", lbl, h)
-				fmt.Println("INCONCLUSIVE", msg)
-				ev.Inconclusive = append(ev.Inconclusive, msg)
-			}
+		for k := range hr.Reached {
+			reachedAll[k] = true
 		}
 		if !hr.Reached["end:"+h] {
 			msg := fmt.Sprintf("vacuity: end of %s not reachable on any path", h)
@@ -331,6 +325,17 @@ func cmdCheck(args []string) int {
 					exit = 1
 				}
 			}
+		}
+	}
+	for _, lbl := range expReach {
+		if !reachedAll[lbl] && !strings.Contains(lbl, ".T.") {
+			msg := fmt.Sprintf("vacuity: reach label %q not satisfiable in any harness of %s", lbl, prop)
+			fmt.Println("INCONCLUSIVE", msg)
+			ev.Inconclusive = append(ev.Inconclusive, msg)
+		} else if !reachedAll[lbl] && *tier == "thorough" {
+			msg := fmt.Sprintf("vacuity: reach label %q not satisfiable in any harness of %s", lbl, prop)
+			fmt.Println("INCONCLUSIVE", msg)
+			ev.Inconclusive = append(ev.Inconclusive, msg)
 		}
 	}
 	ev.write(start)
